@@ -447,7 +447,7 @@ impl GroupConfig {
                 Overreplicated(self.rf_over())
             },
             root_paths: if self.isolate {
-                self.input_paths().collect()
+                self.root_paths()
             } else {
                 vec![]
             },
@@ -501,6 +501,28 @@ impl GroupConfig {
         }
         self.base_dir = self.base_dir.canonicalize();
         Ok(&self.base_dir)
+    }
+
+    /// Returns the absolute input paths normalized the same way as the paths of the scanned
+    /// files: with `.`, `..`, redundant separators and symbolic links to directories resolved.
+    /// Only such paths can be compared with the reported paths,
+    /// e.g. to check if a file is located under one of the input paths.
+    pub fn root_paths(&self) -> Vec<Path> {
+        self.input_paths()
+            .map(|p| {
+                if p.to_path_buf().is_file() {
+                    // same as the directory walk: don't resolve a symbolic link to a file
+                    match (p.parent(), p.file_name()) {
+                        (Some(parent), Some(name)) => {
+                            Arc::new(parent.canonicalize()).join(Path::from(name))
+                        }
+                        _ => p.canonicalize(),
+                    }
+                } else {
+                    p.canonicalize()
+                }
+            })
+            .collect()
     }
 
     /// Returns an iterator over the absolute input paths.
